@@ -1588,11 +1588,7 @@ Definition step_body (T : class_table) (s : mstate) (oid hid : nat) (o : nop) (o
       | Some ((r, h), n2, nx2) =>
           let root2 := replace_node hid n2 root1 in
           if nop_is_read o then (keep_root s oid ob root2 nx2, MR r h)
-          else
-            match r, skip with
-            | Err _, true => (keep_root s oid ob root2 nx2, MR r h)
-            | _, _ => (save_root s oid ob root2 nx2, MR r h)
-            end
+          else (save_root s oid ob root2 nx2, MR r h)
       end
   end.
 
